@@ -55,19 +55,24 @@ func VerifC10() {
 			okCalls[p.ID] = 0
 		}
 	}
+	clean := vBool("clean") // with a clean session every connect starts from an empty session
 	connect := func() bool {
 		conn = newVConn(true)
 		conn.onSend = monitor
 		cl = New()
 		cl.Session = sess
 		cl.Callback = cb
-		cfg := mkConfig(conn, false)
+		cfg := mkConfig(conn, clean)
 		cfg.AlwaysAnnounceOnPublish = early
+		if clean { // handshakes of the previous connection vanish with its session
+			open[1], open[2] = false, false
+			okCalls[1], okCalls[2] = 0, 0
+		}
 		_, err := cl.Connect(cfg)
 		if err != nil {
 			return false
 		}
-		conn.in <- connack(packet.ConnectionAccepted, true)
+		conn.in <- connack(packet.ConnectionAccepted, !clean)
 		vQuiesce()
 		return conn.alive()
 	}
